@@ -167,6 +167,8 @@ type Service struct {
 	Name     string    `json:"name"`
 	BasePath string    `json:"base_path,omitempty"`
 	Methods  []*Method `json:"methods"`
+	// Audience: declared through an options block (options { audience = [...] })
+	Audience []string `json:"audience,omitempty"`
 }
 
 type TopicMessage struct {
